@@ -1,1 +1,765 @@
-fn main() {}
+//! C18 — the dispatcher starts every accepted task exactly once (DESIGN.md §3 C18).
+//!
+//! A case builds a real `compio_dispatcher::Dispatcher` (1–4 worker runtimes, concurrent or
+//! sequential, io_uring / polling / default driver), lets 1–6 OS threads dispatch 1–40 generated
+//! tasks each from a common start line and joins the dispatcher at a generated point.  Verdicts are
+//! counters, gauges, `oneshot::Receiver::try_recv` after `join` returned and the existence of the
+//! worker threads in /proc/self/task; time is only used for watchdogs (expiry = inconclusive).
+use std::{
+    cell::Cell,
+    collections::HashMap,
+    future::Future,
+    num::NonZeroUsize,
+    panic::{catch_unwind, AssertUnwindSafe},
+    pin::Pin,
+    sync::{
+        atomic::{AtomicBool, AtomicI32, AtomicU32, AtomicU64, AtomicUsize, Ordering},
+        mpsc, Arc, Mutex,
+    },
+    task::{Context, Poll},
+    time::{Duration, Instant},
+};
+
+use compio_dispatcher::Dispatcher;
+use compio_driver::{DispatchError, DriverType, ProactorBuilder};
+use compio_io::{AsyncReadExt, AsyncWriteExt};
+use futures_channel::oneshot;
+use serde::{Deserialize, Serialize};
+use vcore::{
+    proptest::{collection::vec, prelude::*},
+    Outcome, Part, Session,
+};
+
+const PANIC_MARK: &str = "verif-task-panic";
+const BROKEN_MSG: &str = "cannot create compio runtime";
+const WATCHDOG: Duration = Duration::from_secs(30);
+
+// ------------------------------------------------------------------------------------------------
+// case type
+
+#[derive(Debug, Clone, Copy, Serialize, Deserialize, PartialEq)]
+pub enum BodyK {
+    Return,
+    /// yield to the executor k times
+    Yield(u8),
+    /// `compio_runtime::time::sleep` for n x 250 us (<= 5 ms)
+    Sleep(u8),
+    /// create an anonymous pipe on the worker, write n+1 bytes, read them back
+    Pipe(u8),
+    Panic,
+    /// `dispatch_blocking` (runs on the dispatcher's blocking pool, not on a worker) for n x 100 us
+    Blocking(u8),
+}
+
+#[derive(Debug, Clone, Copy, Serialize, Deserialize, PartialEq)]
+pub enum Driver {
+    Default,
+    IoUring,
+    Poll,
+}
+
+#[derive(Debug, Clone, Copy, Serialize, Deserialize, PartialEq)]
+pub enum JoinPoint {
+    /// every dispatching thread has received all its results before `join` is called
+    AfterResults,
+    /// `join` is called as soon as all threads have dispatched; results are collected afterwards
+    Immediately,
+}
+
+#[derive(Debug, Clone, Serialize, Deserialize)]
+pub struct DispCase {
+    pub workers: u8,
+    pub concurrent: bool,
+    pub driver: Driver,
+    /// thread limit of the dispatcher's blocking pool (which `join` itself uses)
+    pub pool_limit: u8,
+    pub threads: Vec<Vec<BodyK>>,
+    pub join: JoinPoint,
+    /// await `join` inside a compio runtime instead of `futures_executor::block_on`
+    pub join_in_runtime: bool,
+    /// the proactor configuration is invalid, so every worker panics while building its runtime
+    pub broken_workers: bool,
+}
+
+// ------------------------------------------------------------------------------------------------
+// shared observation state
+
+struct TaskSt {
+    starts: AtomicU32,
+    finished: AtomicBool,
+    io_error: AtomicBool,
+    started_on: Mutex<Option<String>>,
+}
+
+struct Sh {
+    tasks: Vec<TaskSt>,
+    /// task bodies (closure called, future not yet dropped) alive on any worker
+    live_bodies: AtomicI32,
+    /// per worker thread: maximum number of task bodies alive at once
+    overlap: Mutex<HashMap<String, u32>>,
+}
+
+thread_local! {
+    static ACTIVE: Cell<u32> = const { Cell::new(0) };
+}
+
+struct ActiveGuard(Arc<Sh>);
+
+impl ActiveGuard {
+    fn enter(sh: &Arc<Sh>, name: &str) -> Self {
+        sh.live_bodies.fetch_add(1, Ordering::SeqCst);
+        let n = ACTIVE.with(|a| {
+            a.set(a.get() + 1);
+            a.get()
+        });
+        let mut o = sh.overlap.lock().unwrap();
+        let e = o.entry(name.to_string()).or_default();
+        *e = (*e).max(n);
+        ActiveGuard(sh.clone())
+    }
+}
+
+impl Drop for ActiveGuard {
+    fn drop(&mut self) {
+        ACTIVE.with(|a| a.set(a.get() - 1));
+        self.0.live_bodies.fetch_sub(1, Ordering::SeqCst);
+    }
+}
+
+struct YieldNow(bool);
+
+impl Future for YieldNow {
+    type Output = ();
+
+    fn poll(mut self: Pin<&mut Self>, cx: &mut Context<'_>) -> Poll<()> {
+        if self.0 {
+            Poll::Ready(())
+        } else {
+            self.0 = true;
+            cx.waker().wake_by_ref();
+            Poll::Pending
+        }
+    }
+}
+
+fn tag(id: usize) -> u64 {
+    (id as u64).wrapping_mul(0xD6E8_FEB8_6659_FD93) ^ 0xC18
+}
+
+type Res = (usize, u64);
+
+/// The closure handed to `Dispatcher::dispatch`: it is *called* on the worker (that call is the
+/// observable "start"), the future it returns is the task body.
+fn make_task(sh: Arc<Sh>, id: usize, body: BodyK) -> impl FnOnce() -> Pin<Box<dyn Future<Output = Res>>> + Send + 'static {
+    move || {
+        let st = &sh.tasks[id];
+        st.starts.fetch_add(1, Ordering::SeqCst);
+        let name = std::thread::current().name().unwrap_or("?").to_string();
+        *st.started_on.lock().unwrap() = Some(name.clone());
+        let guard = ActiveGuard::enter(&sh, &name);
+        let sh2 = sh.clone();
+        Box::pin(async move {
+            let _guard = guard;
+            let st = &sh2.tasks[id];
+            match body {
+                BodyK::Return | BodyK::Blocking(_) => {}
+                BodyK::Yield(k) => {
+                    for _ in 0..k {
+                        YieldNow(false).await;
+                    }
+                }
+                BodyK::Sleep(n) => compio_runtime::time::sleep(Duration::from_micros(250 * n as u64)).await,
+                BodyK::Pipe(n) => {
+                    let len = n as usize + 1;
+                    let data: Vec<u8> = (0..len).map(|i| (i * 31 + id) as u8).collect();
+                    let ok = async {
+                        let (mut rx, mut tx) = compio_fs::pipe::anonymous().await?;
+                        tx.write_all(data.clone()).await.0?;
+                        let compio_buf::BufResult(r, back) = rx.read_exact(Vec::with_capacity(len)).await;
+                        r?;
+                        std::io::Result::Ok(back == data)
+                    }
+                    .await;
+                    match ok {
+                        Ok(true) => {}
+                        Ok(false) => panic!("pipe round trip returned different bytes"),
+                        Err(_) => st.io_error.store(true, Ordering::SeqCst),
+                    }
+                }
+                BodyK::Panic => panic!("{PANIC_MARK} {id}"),
+            }
+            st.finished.store(true, Ordering::SeqCst);
+            (id, tag(id))
+        })
+    }
+}
+
+fn make_blocking(sh: Arc<Sh>, id: usize, n: u8) -> impl FnOnce() -> Res + Send + 'static {
+    move || {
+        let st = &sh.tasks[id];
+        st.starts.fetch_add(1, Ordering::SeqCst);
+        *st.started_on.lock().unwrap() = Some("<pool>".into());
+        std::thread::sleep(Duration::from_micros(100 * n as u64));
+        st.finished.store(true, Ordering::SeqCst);
+        (id, tag(id))
+    }
+}
+
+// ------------------------------------------------------------------------------------------------
+// /proc helpers
+
+fn comm_of(tid: u32) -> Option<String> {
+    std::fs::read_to_string(format!("/proc/self/task/{tid}/comm")).ok().map(|s| s.trim_end().to_string())
+}
+
+fn tids_with_prefix(prefix: &str) -> Vec<u32> {
+    let mut v = vec![];
+    if let Ok(rd) = std::fs::read_dir("/proc/self/task") {
+        for e in rd.flatten() {
+            if let Some(tid) = e.file_name().to_str().and_then(|s| s.parse::<u32>().ok()) {
+                if comm_of(tid).map(|c| c.starts_with(prefix)).unwrap_or(false) {
+                    v.push(tid);
+                }
+            }
+        }
+    }
+    v
+}
+
+// ------------------------------------------------------------------------------------------------
+// interpreter
+
+#[derive(Debug)]
+enum Got {
+    Value(Res),
+    Canceled,
+    Pending,
+    HandedBack,
+}
+
+struct Pending {
+    id: usize,
+    body: BodyK,
+    rx: oneshot::Receiver<Res>,
+}
+
+fn poll_rx(rx: &mut oneshot::Receiver<Res>, until: Option<Instant>) -> Got {
+    loop {
+        match rx.try_recv() {
+            Ok(Some(v)) => return Got::Value(v),
+            Err(_) => return Got::Canceled,
+            Ok(None) => {}
+        }
+        match until {
+            Some(t) if Instant::now() < t => std::thread::sleep(Duration::from_micros(300)),
+            _ => return Got::Pending,
+        }
+    }
+}
+
+static CASE_SEQ: AtomicU64 = AtomicU64::new(0);
+
+pub fn run_case(case: &DispCase) -> Outcome {
+    let t0 = Instant::now();
+    let r = run_case_inner(case);
+    if std::env::var("VERIF_TIMING").is_ok() {
+        eprintln!("case {:?} workers={} threads={} tasks={} broken={} join={:?}: {:.1} ms", case.driver, case.workers, case.threads.len(), case.threads.iter().map(|t| t.len()).sum::<usize>(), case.broken_workers, case.join, t0.elapsed().as_secs_f64() * 1e3);
+    }
+    r
+}
+
+fn run_case_inner(case: &DispCase) -> Outcome {
+    let workers = case.workers.clamp(1, 4) as usize;
+    let nthreads = case.threads.len();
+    let seq = CASE_SEQ.fetch_add(1, Ordering::Relaxed) & 0xff_ffff;
+    let prefix = format!("w{seq:x}-");
+    let ntasks: usize = case.threads.iter().map(|t| t.len()).sum();
+    let sh = Arc::new(Sh {
+        tasks: (0..ntasks).map(|_| TaskSt { starts: AtomicU32::new(0), finished: AtomicBool::new(false), io_error: AtomicBool::new(false), started_on: Mutex::new(None) }).collect(),
+        overlap: Mutex::new(HashMap::new()),
+        live_bodies: AtomicI32::new(0),
+    });
+    let mut pb = ProactorBuilder::new();
+    // Known hazard kept out of the generator by construction (see notes/C18.md): `join` parks one pool
+    // thread on the worker threads' exit, so with a saturated pool a worker that still needs the pool
+    // (the anonymous-pipe op runs there on the polling driver) spins forever and join never returns.
+    let needs_pool_on_worker = case.threads.iter().flatten().any(|b| matches!(b, BodyK::Pipe(_)));
+    let pool_limit = if needs_pool_on_worker { 64 } else { case.pool_limit.max(1) as usize };
+    pb.capacity(64).thread_pool_recv_timeout(Duration::from_secs(1)).thread_pool_limit(pool_limit);
+    match case.driver {
+        Driver::Default => {}
+        Driver::IoUring => {
+            pb.driver_type(DriverType::IoUring);
+        }
+        Driver::Poll => {
+            pb.driver_type(DriverType::Poll);
+        }
+    }
+    if case.broken_workers {
+        // an SQPOLL cpu that does not exist: io_uring_setup fails, `Runtime::build` returns Err and
+        // the worker's `expect("cannot create compio runtime")` panics
+        pb.driver_type(DriverType::IoUring).sqpoll_idle(Duration::from_millis(10)).sqpoll_cpu(1 << 20);
+    }
+    let pfx = prefix.clone();
+    let disp = match Dispatcher::builder()
+        .worker_threads(NonZeroUsize::new(workers).unwrap())
+        .concurrent(case.concurrent)
+        .thread_names(move |i| format!("{pfx}{i}"))
+        .proactor_builder(pb)
+        .build()
+    {
+        Ok(d) => d,
+        Err(e) => return Outcome::inconclusive(format!("Dispatcher::build: {e}")),
+    };
+    // the worker threads, identified before any task exists (later pool threads may inherit a worker's comm)
+    let mut worker_tids = vec![];
+    if !case.broken_workers {
+        let end = Instant::now() + Duration::from_secs(10);
+        loop {
+            worker_tids = tids_with_prefix(&prefix);
+            if worker_tids.len() == workers {
+                break;
+            }
+            if Instant::now() > end {
+                return Outcome::inconclusive("worker threads did not show up under their names");
+            }
+            std::thread::sleep(Duration::from_micros(200));
+        }
+    } else {
+        // let the workers die (their receivers disappear), so that dispatch is refused
+        let end = Instant::now() + Duration::from_secs(10);
+        while !tids_with_prefix(&prefix).is_empty() && Instant::now() < end {
+            std::thread::sleep(Duration::from_micros(200));
+        }
+    }
+    let alive = |tids: &[u32]| tids.iter().filter(|t| comm_of(**t).map(|c| c.starts_with(&prefix)).unwrap_or(false)).count();
+
+    let tm = std::env::var("VERIF_TIMING").is_ok();
+    let t0 = Instant::now();
+    let disp = Arc::new(disp);
+    let arrived = Arc::new(AtomicUsize::new(0));
+    let (rep_tx, rep_rx) = mpsc::channel::<(usize, Vec<(usize, BodyK, Got)>, usize)>();
+    let mut go_txs = vec![];
+    let mut handles = vec![];
+    let mut first = 0;
+    for (t, bodies) in case.threads.iter().enumerate() {
+        let (go_tx, go_rx) = mpsc::channel::<()>();
+        go_txs.push(go_tx);
+        let (sh, disp, arrived, rep_tx, bodies) = (sh.clone(), disp.clone(), arrived.clone(), rep_tx.clone(), bodies.clone());
+        let first_id = first;
+        first += bodies.len();
+        // with dead workers an accepted task can only resolve at join: never wait for it before
+        let after_results = case.join == JoinPoint::AfterResults && !case.broken_workers;
+        handles.push(
+            std::thread::Builder::new()
+                .name("c18d".into())
+                .spawn(move || {
+                    arrived.fetch_add(1, Ordering::SeqCst);
+                    let end = Instant::now() + Duration::from_secs(2);
+                    while arrived.load(Ordering::SeqCst) < nthreads && Instant::now() < end {
+                        std::thread::yield_now();
+                    }
+                    let mut done: Vec<(usize, BodyK, Got)> = vec![];
+                    let mut pending: Vec<Pending> = vec![];
+                    for (k, body) in bodies.iter().enumerate() {
+                        let id = first_id + k;
+                        match *body {
+                            BodyK::Blocking(n) => match disp.dispatch_blocking(make_blocking(sh.clone(), id, n)) {
+                                Ok(rx) => pending.push(Pending { id, body: *body, rx }),
+                                Err(DispatchError(f)) => {
+                                    // handed back intact: run it here, once
+                                    let _ = f();
+                                    done.push((id, *body, Got::HandedBack));
+                                }
+                            },
+                            _ => match disp.dispatch(make_task(sh.clone(), id, *body)) {
+                                Ok(rx) => pending.push(Pending { id, body: *body, rx }),
+                                Err(DispatchError(f)) => {
+                                    // the very closure must come back: calling it bumps *its* start counter
+                                    drop(f());
+                                    done.push((id, *body, Got::HandedBack));
+                                }
+                            },
+                        }
+                    }
+                    drop(disp);
+                    if after_results {
+                        let end = Instant::now() + WATCHDOG;
+                        for mut p in pending.drain(..) {
+                            let g = poll_rx(&mut p.rx, Some(end));
+                            done.push((p.id, p.body, g));
+                        }
+                    }
+                    let npending = pending.len();
+                    let _ = rep_tx.send((t, std::mem::take(&mut done), npending));
+                    // wait for "joined"
+                    if go_rx.recv().is_err() {
+                        return;
+                    }
+                    let end = Instant::now() + WATCHDOG;
+                    for mut p in pending.drain(..) {
+                        // after join returned nothing can complete a worker task any more: exact poll.
+                        // blocking-pool jobs are independent of join: bounded wait.
+                        let until = if matches!(p.body, BodyK::Blocking(_)) { Some(end) } else { None };
+                        let g = poll_rx(&mut p.rx, until);
+                        done.push((p.id, p.body, g));
+                    }
+                    let _ = rep_tx.send((t, done, 0));
+                })
+                .expect("spawn dispatching thread"),
+        );
+    }
+    drop(rep_tx);
+    let mut got: Vec<Option<(BodyK, Got, bool)>> = (0..ntasks).map(|_| None).collect(); // (body, result, judged before join)
+    let mut inconclusive = None;
+    for _ in 0..nthreads {
+        match rep_rx.recv_timeout(WATCHDOG + Duration::from_secs(15)) {
+            Ok((_, done, _)) => {
+                for (id, b, g) in done {
+                    got[id] = Some((b, g, true));
+                }
+            }
+            Err(_) => {
+                inconclusive = Some("a dispatching thread did not report".to_string());
+                break;
+            }
+        }
+    }
+    // a receiver still pending after the watchdog although join has not been called
+    let stuck_before_join = got.iter().flatten().any(|(_, g, _)| matches!(g, Got::Pending));
+    if stuck_before_join && inconclusive.is_none() && !case.broken_workers {
+        if alive(&worker_tids) == 0 {
+            return Outcome::violation(
+                "C18/workers-exited-before-join/task-result-never-delivered",
+                "every worker thread has exited although the dispatcher was not joined, and an accepted task's receiver is still pending",
+            );
+        }
+        inconclusive = Some("a result did not arrive within the watchdog (workers still alive)".into());
+    }
+    if let Some(why) = inconclusive {
+        drop(go_txs);
+        return Outcome::inconclusive(why);
+    }
+    if tm { eprintln!("  reports in at {:?}", t0.elapsed()); }
+    let unfinished_at_join = (0..ntasks).filter(|i| !sh.tasks[*i].finished.load(Ordering::SeqCst)).count();
+    let disp = match Arc::try_unwrap(disp) {
+        Ok(d) => d,
+        Err(_) => return Outcome::inconclusive("harness: dispatcher still shared"),
+    };
+    // ---- join (on a helper thread so that a hanging join cannot hang the run)
+    let (jtx, jrx) = mpsc::channel::<Result<std::io::Result<()>, String>>();
+    let in_rt = case.join_in_runtime;
+    let jh = std::thread::Builder::new()
+        .name("c18j".into())
+        .spawn(move || {
+            let r = catch_unwind(AssertUnwindSafe(|| {
+                if in_rt {
+                    compio_runtime::Runtime::new().expect("harness runtime").block_on(disp.join())
+                } else {
+                    futures_executor::block_on(disp.join())
+                }
+            }));
+            let _ = jtx.send(r.map_err(|p| {
+                if let Some(s) = p.downcast_ref::<String>() {
+                    s.clone()
+                } else if let Some(s) = p.downcast_ref::<&str>() {
+                    s.to_string()
+                } else {
+                    "<non-string payload>".into()
+                }
+            }));
+        })
+        .expect("spawn join thread");
+    let joined = match jrx.recv_timeout(WATCHDOG) {
+        Ok(r) => r,
+        Err(_) => {
+            drop(go_txs);
+            return Outcome::inconclusive("join did not return within the watchdog");
+        }
+    };
+    if tm { eprintln!("  joined at {:?}", t0.elapsed()); }
+    // exact: every worker thread has been joined, so its runtime and all task futures are dropped
+    let live_after_join = sh.live_bodies.load(Ordering::SeqCst);
+    // pthread_join returns a moment before the kernel removes the task from /proc: bounded grace
+    let end = Instant::now() + Duration::from_secs(10);
+    let mut still;
+    loop {
+        still = if case.broken_workers { tids_with_prefix(&prefix).len() } else { alive(&worker_tids) };
+        if still == 0 || Instant::now() > end {
+            break;
+        }
+        std::thread::sleep(Duration::from_millis(1));
+    }
+    if tm { eprintln!("  gone at {:?}", t0.elapsed()); }
+    for g in &go_txs {
+        let _ = g.send(());
+    }
+    for _ in 0..nthreads {
+        match rep_rx.recv_timeout(WATCHDOG + Duration::from_secs(15)) {
+            Ok((_, done, _)) => {
+                for (id, b, g) in done {
+                    if got[id].is_none() {
+                        got[id] = Some((b, g, false));
+                    }
+                }
+            }
+            Err(_) => return Outcome::inconclusive("a dispatching thread did not deliver its final report"),
+        }
+    }
+    for h in handles {
+        let _ = h.join();
+    }
+    let _ = jh.join();
+    if tm { eprintln!("  all done at {:?}", t0.elapsed()); }
+
+    // ------------------------------------------------------------------ oracle
+    let mode = if case.concurrent { "concurrent" } else { "sequential" };
+    if live_after_join != 0 {
+        return Outcome::violation(
+            "C18/join-returned-before-workers-exited",
+            format!("{live_after_join} task bodies were still alive on worker runtimes at the moment join() returned ({still} worker threads still exist 10 s later)"),
+        );
+    }
+    if still > 0 {
+        return Outcome::inconclusive("worker threads still listed in /proc 10 s after join returned");
+    }
+    match (&joined, case.broken_workers) {
+        (Ok(Ok(())), false) => {}
+        (Ok(Err(e)), false) => return Outcome::violation("C18/join-error-without-worker-panic", format!("join returned Err({e}) although no worker panicked")),
+        (Err(p), false) => return Outcome::violation("C18/join-panicked-without-worker-panic", format!("join resumed a panic {p:?} although task panics are contained in their tasks")),
+        (Err(p), true) if p.contains(BROKEN_MSG) => {}
+        (other, true) => return Outcome::violation("C18/worker-panic-not-propagated", format!("every worker panicked while building its runtime, but join returned {other:?}")),
+    }
+    let mut labels: Vec<String> = vec![mode.into(), format!("driver:{:?}", case.driver)];
+    let mut canceled = 0;
+    let mut unstarted = 0;
+    let mut handed_back = 0;
+    for id in 0..ntasks {
+        let Some((body, g, before_join)) = &got[id] else {
+            return Outcome::inconclusive("harness: a task has no verdict");
+        };
+        let st = &sh.tasks[id];
+        let starts = st.starts.load(Ordering::SeqCst);
+        let finished = st.finished.load(Ordering::SeqCst);
+        let on = st.started_on.lock().unwrap().clone();
+        if st.io_error.load(Ordering::SeqCst) {
+            return Outcome::inconclusive("pipe I/O error inside a task (resource shortage)");
+        }
+        if starts > 1 {
+            return Outcome::violation(format!("C18/task-started-twice/{mode}"), format!("task {id} ({body:?}) was started {starts} times"));
+        }
+        let blocking = matches!(body, BodyK::Blocking(_));
+        if let (Some(on), false) = (&on, blocking) {
+            let ok = if matches!(g, Got::HandedBack) { on == "c18d" } else { on.starts_with(&prefix) };
+            if !ok {
+                return Outcome::violation("C18/task-started-on-foreign-thread", format!("task {id} was started on thread {on:?}, workers are {prefix}*"));
+            }
+        }
+        match g {
+            Got::HandedBack => {
+                handed_back += 1;
+                if !blocking && !case.broken_workers {
+                    return Outcome::violation("C18/dispatch-refused-with-live-workers", format!("dispatch handed task {id} back although the workers are alive"));
+                }
+                if starts != 1 {
+                    return Outcome::violation("C18/handed-back-closure-is-not-the-task", format!("task {id}: calling the closure returned in DispatchError did not start task {id} (starts = {starts})"));
+                }
+            }
+            Got::Value(v) => {
+                if *v != (id, tag(id)) {
+                    return Outcome::violation("C18/result-reached-wrong-receiver", format!("receiver of task {id} got {v:?}, expected ({id}, {:#x})", tag(id)));
+                }
+                if starts != 1 || !finished {
+                    return Outcome::violation("C18/result-without-run", format!("task {id} delivered a result but starts = {starts}, finished = {finished}"));
+                }
+                if *body == BodyK::Panic {
+                    return Outcome::violation("C18/panicking-task-delivered-result", format!("task {id} panics but its receiver got a value"));
+                }
+            }
+            Got::Canceled => {
+                canceled += 1;
+                if starts == 0 {
+                    unstarted += 1;
+                }
+                let legal = !blocking && (*body == BodyK::Panic || case.broken_workers || (case.concurrent && !*before_join));
+                if !legal {
+                    let sig = if *before_join { format!("C18/result-lost/{mode}") } else { "C18/sequential-task-unfinished-at-join".to_string() };
+                    return Outcome::violation(sig, format!("task {id} ({body:?}): receiver reported Canceled (starts = {starts}, finished = {finished}, judged {} join)", if *before_join { "before" } else { "after" }));
+                }
+                if *body == BodyK::Panic && !case.broken_workers && (*before_join || !case.concurrent) && starts != 1 {
+                    return Outcome::violation(format!("C18/accepted-task-never-started/{mode}"), format!("task {id} ({body:?}) was accepted, never started, and its receiver reports Canceled"));
+                }
+                if finished && !blocking {
+                    return Outcome::violation("C18/finished-task-result-dropped", format!("task {id} ran to completion but its receiver reports Canceled"));
+                }
+            }
+            Got::Pending => {
+                // only reachable after join returned (before join it was handled above)
+                return Outcome::violation(
+                    format!("C18/receiver-pending-after-join/{mode}"),
+                    format!("join() has returned and all workers are gone, but the receiver of task {id} ({body:?}) is still pending (starts = {starts}, finished = {finished})"),
+                );
+            }
+        }
+    }
+    if !case.concurrent {
+        let o = sh.overlap.lock().unwrap();
+        if let Some((w, n)) = o.iter().find(|(w, n)| **n > 1 && w.starts_with(&prefix)) {
+            return Outcome::violation("C18/sequential-worker-overlapped-tasks", format!("worker {w} had {n} task bodies alive at once in sequential mode"));
+        }
+    } else if sh.overlap.lock().unwrap().values().any(|n| *n > 1) {
+        labels.push("overlap>1".into());
+    }
+    let used = sh.overlap.lock().unwrap().keys().filter(|w| w.starts_with(&prefix)).count();
+    if used >= 2 {
+        labels.push("workers-used>=2".into());
+    }
+    if case.join == JoinPoint::Immediately {
+        labels.push("join:immediately".into());
+    }
+    if case.join_in_runtime {
+        labels.push("join:in-runtime".into());
+    }
+    if pool_limit <= 2 {
+        labels.push("small-blocking-pool".into());
+    } else if case.pool_limit <= 2 {
+        labels.push("pool-limit-raised(pipe-bodies)".into());
+    }
+    if case.broken_workers {
+        labels.push("broken-workers".into());
+    }
+    if canceled > 0 {
+        labels.push("canceled-seen".into());
+    }
+    if unstarted > 0 {
+        labels.push("never-started-at-join".into());
+    }
+    if handed_back > 0 {
+        labels.push("handed-back".into());
+    }
+    if unfinished_at_join > 0 {
+        labels.push("unfinished-at-join".into());
+    }
+    let nontrivial = (nthreads >= 2 && workers >= 2) || (case.join == JoinPoint::Immediately && unfinished_at_join > 0);
+    Outcome::pass_owned(nontrivial && ntasks > 0, labels)
+}
+
+// ------------------------------------------------------------------------------------------------
+// generator
+
+fn body_strategy() -> impl Strategy<Value = BodyK> + Clone {
+    prop_oneof![
+        4 => Just(BodyK::Return),
+        3 => (0u8..=6).prop_map(BodyK::Yield),
+        3 => (0u8..=20).prop_map(BodyK::Sleep),
+        2 => (0u8..=200).prop_map(BodyK::Pipe),
+        1 => Just(BodyK::Panic),
+        1 => (0u8..=30).prop_map(BodyK::Blocking),
+    ]
+}
+
+fn case_strategy() -> impl Strategy<Value = DispCase> + Clone {
+    (
+        1u8..=4,
+        any::<bool>(),
+        prop_oneof![Just(Driver::Default), Just(Driver::IoUring), Just(Driver::Poll)],
+        prop_oneof![1 => Just(1u8), 1 => Just(2u8), 3 => Just(64u8)],
+        vec(prop_oneof![3 => vec(body_strategy(), 1..=8), 1 => vec(body_strategy(), 8..=40)], 1..=6),
+        prop_oneof![Just(JoinPoint::AfterResults), Just(JoinPoint::Immediately)],
+        any::<bool>(),
+        prop_oneof![11 => Just(false), 1 => Just(true)],
+    )
+        .prop_map(|(workers, concurrent, driver, pool_limit, threads, join, join_in_runtime, broken_workers)| DispCase {
+            workers,
+            concurrent,
+            driver,
+            pool_limit,
+            threads,
+            join,
+            join_in_runtime,
+            broken_workers,
+        })
+}
+
+fn main() {
+    let prev = std::panic::take_hook();
+    std::panic::set_hook(Box::new(move |info| {
+        let msg = if let Some(s) = info.payload().downcast_ref::<String>() {
+            s.clone()
+        } else if let Some(s) = info.payload().downcast_ref::<&str>() {
+            s.to_string()
+        } else {
+            String::new()
+        };
+        if (msg.contains(PANIC_MARK) || msg.contains(BROKEN_MSG)) && std::env::var("VERIF_VERBOSE").is_err() {
+            return;
+        }
+        prev(info)
+    }));
+    let mut s = Session::new();
+    let mut p = Part::new(
+        "C18",
+        "dispatch",
+        "case = Dispatcher(workers 1-4, concurrent|sequential, driver default/io_uring/polling, blocking-pool limit 1/2/64) x 1-6 OS threads dispatching 1-40 tasks each \
+         from a common start line (bodies: return, yield k, sleep <= 5 ms, anonymous-pipe round trip, panic, dispatch_blocking job) x join point (after all results | \
+         immediately after dispatching) x join awaited by futures_executor or inside a compio runtime x (1 in 12) a proactor configuration that makes every worker \
+         panic at start-up. Non-trivial = (>= 2 dispatching threads and >= 2 workers) or join called while accepted tasks were unfinished; distinct = distinct serialised case.",
+    );
+    p.quick_cases = 1200;
+    p.thorough_cases = 30000;
+    p.replay_repeats = 30;
+    p.max_shrink_iters = 40;
+    p.assumptions = vec![
+        "in concurrent mode a task whose dispatcher is joined first may be cancelled before its closure was ever called (join-first carve-out of the property); it must then report Canceled",
+        "worker threads are identified by their thread names in /proc/self/task before the first task is dispatched",
+    ];
+    let many = |n: usize, b: BodyK| vec![b; n];
+    p.regressions = vec![
+        (
+            "sequential-immediate-join-all-finish",
+            DispCase { workers: 2, concurrent: false, driver: Driver::Default, pool_limit: 64, threads: vec![many(12, BodyK::Sleep(4)), many(12, BodyK::Yield(3))], join: JoinPoint::Immediately, join_in_runtime: false, broken_workers: false },
+        ),
+        (
+            "concurrent-immediate-join-many",
+            DispCase { workers: 1, concurrent: true, driver: Driver::Poll, pool_limit: 1, threads: vec![many(40, BodyK::Sleep(8)), many(40, BodyK::Pipe(9)), many(40, BodyK::Return)], join: JoinPoint::Immediately, join_in_runtime: true, broken_workers: false },
+        ),
+        (
+            "broken-workers",
+            DispCase { workers: 2, concurrent: true, driver: Driver::IoUring, pool_limit: 64, threads: vec![many(3, BodyK::Return), vec![BodyK::Blocking(3), BodyK::Return]], join: JoinPoint::AfterResults, join_in_runtime: false, broken_workers: true },
+        ),
+        (
+            "after-results-mixed",
+            DispCase {
+                workers: 3,
+                concurrent: true,
+                driver: Driver::IoUring,
+                pool_limit: 2,
+                threads: vec![vec![BodyK::Return, BodyK::Panic, BodyK::Pipe(100), BodyK::Blocking(10)], vec![BodyK::Sleep(10), BodyK::Yield(5), BodyK::Panic], many(6, BodyK::Pipe(3))],
+                join: JoinPoint::AfterResults,
+                join_in_runtime: true,
+                broken_workers: false,
+            },
+        ),
+    ];
+    if s.args.shard.0 != 0 {
+        // the fixed cases run once per check, in shard 0
+        p.regressions.clear();
+    }
+    // safety valve for broken trees: after three consecutive hung cases the rest is reported
+    // inconclusive at once (the run then exits 2) instead of each waiting for its watchdogs
+    static HUNG: std::sync::atomic::AtomicU32 = std::sync::atomic::AtomicU32::new(0);
+    s.run_part(p, case_strategy(), |c| {
+        if HUNG.load(Ordering::SeqCst) >= 3 {
+            return Outcome::inconclusive("circuit breaker: three consecutive cases hung");
+        }
+        let o = run_case(c);
+        match &o {
+            Outcome::Inconclusive { .. } => {
+                HUNG.fetch_add(1, Ordering::SeqCst);
+            }
+            _ => HUNG.store(0, Ordering::SeqCst),
+        }
+        o
+    });
+    s.finish();
+}
